@@ -266,6 +266,65 @@ def healthy_api_job(j):
     return n, out
 
 
+def run_pair(cfg):
+    """Two protocol objects in one process with overlapping requests: object A's conforming answer arrives after
+    `delay`, object B transmits (and is answered) `b_at` after A started.  A's conforming frame is accepted when it
+    arrives - one transmission, the frame itself - whatever B does in between."""
+    import asyncio
+    world.reset()
+    tr, T, R = cfg['transport'], 1, cfg['R']
+    framing = 'tcp' if tr == 'tcp' else 'rtu'
+
+    def answer(req):
+        rq = wire.parse_request(req)
+        pl = bytes((5 * i + rq['reg']) & 0xFF for i in range(2 * rq['count']))
+        return wire.tcp_read_resp(req[:2], 0xF7, pl) if framing == 'tcp' else wire.rtu_read_resp(0xF7, pl)
+
+    def plan(k, req, now):
+        rq = wire.parse_request(req)
+        return [((cfg['delay'] * T) if rq['reg'] == 100 else D0, ('data', answer(req)))]
+    peer = PlanPeer(plan)
+    loop = KLoop(peer)
+    pa, pb = make_protocol(tr, T, R, cfg['ka']), make_protocol(tr, T, R, cfg['ka'])
+    out = {}
+
+    async def a():
+        t0 = loop.time()
+        out['a'] = await _exec(pa.read_command(100, 3), pa)
+        out['ta'] = loop.time() - t0
+
+    async def b():
+        await asyncio.sleep(cfg['b_at'] * T)
+        for _ in range(cfg['b_requests']):
+            out['b'] = await _exec(pb.read_command(200, 2), pb)
+
+    async def both():
+        await asyncio.gather(a(), b())
+    st, _ = loop.run(both())
+    ra = out.get('a')
+    sent_a = [d for t, fd, d, _ in peer.sent if wire.parse_request(d)['reg'] == 100]
+    if st == 'hang' or ra is None:
+        return [('terminates', 'hang')]
+    vio = []
+    if ra[0] != 'ok' or len(sent_a) != 1 or ra[1] != answer(sent_a[0]):
+        vio.append(('conforming-frame-accepted-while-another-object-is-active',
+                    f'object A: {ra[0]} {ra[1] if ra[0] != "ok" else ""} after {len(sent_a)} transmission(s)'))
+    rb = out.get('b')
+    if rb is None or rb[0] != 'ok':
+        vio.append(('conforming-frame-accepted-while-another-object-is-active', f'object B: {rb[:2] if rb else None}'))
+    return vio
+
+
+def pair_configs():
+    for tr in ('udp', 'tcp'):
+        for ka in (False, True):
+            for R in (0, 1):
+                for delay in (0.5, 0.9):
+                    for b_at in (0.0, 0.2, 0.45):
+                        for nb in (1, 2):
+                            yield dict(transport=tr, ka=ka, R=R, delay=delay, b_at=b_at, b_requests=nb)
+
+
 def k_cases(tier):
     counts = (1, 2, 61, 125)
     for framing in ('rtu', 'tcp', 'aa55'):
@@ -288,6 +347,11 @@ def run(tier, seed, rep):
     for v in ovl:
         v['key'] = 'overlapping-callers:' + v['key']
     rep.add_many(ovl)
+    npair = 0
+    for cfg in pair_configs():
+        npair += 1
+        for clause, cause in run_pair(cfg):
+            rep.add(f"{clause}/{cfg['transport']}/ka={int(cfg['ka'])}", clause, dict(part='P', cfg=cfg), dict(cause=cause, **cfg))
     from .c17 import settings_configs
     hjobs = [(c, tr) for c in settings_configs() for tr in (('udp', 'tcp') if c['family'] != 'ES' else ('udp',))]
     nh = 0
@@ -350,7 +414,7 @@ def run(tier, seed, rep):
                     nk += 1
                     for key, cause in v:
                         rep.add(key, key.split('/')[0], dict(part='L', framing=framing, ca=ca, cb=cb, ka=ka), dict(cause=cause))
-    cov = dict(api_calls_against_healthy_models=nh, session_histories=_ses.executions, overlapping_caller_executions=novl, evaluations=total + nk + novl, distinct_nontrivial=nontriv,
+    cov = dict(two_object_cases=npair, api_calls_against_healthy_models=nh, session_histories=_ses.executions, overlapping_caller_executions=novl, evaluations=total + nk + novl, distinct_nontrivial=nontriv,
                rule='conforming frames built by the independent codec: RTU/MBAP read answers for every count x every '
                     'uniform fill byte (x all unit addresses for counts 1 and 125, x trailing 0/1/2/7 bytes on RTU), '
                     'walking-one payloads, write echoes over all 65536 registers x boundary values and all 65536 '
@@ -380,6 +444,8 @@ def replay(r):
         out = c06.replay(r)
         out['violations'] = [v for v in out['violations'] if v[0].startswith('answered-at-once:valid')]
         return out
+    if r['part'] == 'P':
+        return dict(violations=run_pair(r['cfg']))
     if r['part'] == 'H':
         cfg = r['cfg']
         cfg['refused'] = tuple(cfg['refused'])
